@@ -71,23 +71,30 @@ def load_spec(pid):
     return mod
 
 
-def lower_targets(spec):
+def lower_targets(spec, failed=None):
     out = {}
     for t in spec.TARGETS:
-        if t.region_end:
-            ex = X.extract_region(REPO, t.file, t.locate, t.region_end)
-        else:
-            ex = X.extract_function(REPO, t.file, t.locate, t.index, t.count)
-        body = ex.body
-        rules = (X.COMMON_RULES if t.common else []) + t.rules
-        body, fired = X.apply_rules(body, rules, what=t.name)
-        if t.marks:
-            body = X.mark_loops(body, t.marks, what=t.name)
-        if t.loops:
-            body = X.inject_loop_contracts(body, t.loops, what=t.name)
-        if t.ghost:
-            body = X.inject_at(body, t.ghost, what=t.name)
-        out[t.name] = dict(ex=ex, body=body, fired=fired)
+      try:
+            if t.region_end:
+                ex = X.extract_region(REPO, t.file, t.locate, t.region_end)
+            else:
+                ex = X.extract_function(REPO, t.file, t.locate, t.index, t.count)
+            body = ex.body
+            if t.defers:
+                body = X.lower_defers(body, what=t.name, **t.defers)
+            rules = (X.COMMON_RULES if t.common else []) + t.rules
+            body, fired = X.apply_rules(body, rules, what=t.name)
+            if t.marks:
+                body = X.mark_loops(body, t.marks, what=t.name)
+            if t.loops:
+                body = X.inject_loop_contracts(body, t.loops, what=t.name)
+            if t.ghost:
+                body = X.inject_at(body, t.ghost, what=t.name)
+            out[t.name] = dict(ex=ex, body=body, fired=fired)
+      except X.ExtractionError as e:
+        if failed is None:
+            raise
+        failed[t.name] = str(e)
     return out
 
 
@@ -392,12 +399,19 @@ def main():
         shutil.rmtree(os.path.join(VERIF, 'replays', pid), ignore_errors=True)
 
     undecided = []   # strings
-    try:
-        lowered = lower_targets(spec)
-        units = gen_units(spec, lowered, work)
-    except X.ExtractionError as e:
-        log('UNDECIDED property=%s reason=extraction: %s' % (pid, e))
-        sys.exit(2)
+    failed_targets = {}
+    lowered = lower_targets(spec, failed_targets)
+    units = {}
+    broken_units = {}
+    sdir_ = os.path.join(VERIF, 'specs', spec.ID)
+    for uname, tmpl in spec.UNITS.items():
+        try:
+            one = type('S', (), dict(ID=spec.ID, UNITS={uname: tmpl}))
+            units.update(gen_units(one, lowered, work))
+        except X.ExtractionError as e:
+            broken_units[uname] = str(e)
+    for tname, msg in failed_targets.items():
+        undecided.append('extraction: %s' % msg)
 
     natives = {}
     if replay:
@@ -414,6 +428,10 @@ def main():
         sys.exit(1 if 'REPRODUCED' in out and 'NOT-REPRODUCED' not in out else 0)
 
     proofs = [p for p in spec.PROOFS if (p.tier == 'quick' or tier == 'thorough')]
+    skipped = [p for p in proofs if p.unit not in units]
+    for p in skipped:
+        undecided.append('%s: not run, its unit could not be generated (%s)' % (p.name, broken_units.get(p.unit, '?')[:160]))
+    proofs = [p for p in proofs if p.unit in units]
     if only:
         proofs = [p for p in proofs if re.search(only, p.name)]
     results = []
@@ -566,7 +584,7 @@ def main():
             functions_under_contract=[dict(name=t.name, where=lowered[t.name]['ex'].where(),
                                            sha256=lowered[t.name]['ex'].sha256[:16],
                                            lowering_rules_fired=sum(n for _, n in lowered[t.name]['fired']))
-                                      for t in spec.TARGETS],
+                                      for t in spec.TARGETS if t.name in lowered],
             proofs=[dict(name=r.proof.name, kind=r.proof.kind, backend=r.proof.backend, status=r.status,
                          obligations=len([p for p in r.props if 'CANARY' not in p[1]]),
                          discharged=len([p for p in r.props if 'CANARY' not in p[1] and p[2] == 'SUCCESS']),
